@@ -49,6 +49,15 @@ func (w *wireWriter) Write(b []byte) (int, error) {
 	return len(b), nil
 }
 
+// markWriter is the kind of writer a middleware maps over http.ResponseWriter (gzip, capture, ...): every
+// Write that goes through it is preceded by a marker Write, so the wire shows which writes it saw.
+type markWriter struct{ http.ResponseWriter }
+
+func (m markWriter) Write(b []byte) (int, error) {
+	_, _ = m.ResponseWriter.Write([]byte("W"))
+	return m.ResponseWriter.Write(b)
+}
+
 type unresolvable struct{ _ int }
 
 type subKey struct{}
@@ -84,17 +93,33 @@ func panicValue(v int) interface{} {
 	return fmt.Sprintf("boom%d", v)
 }
 
-func panicText(v int) string {
-	if v == 0 {
-		return "unable to invoke"
+// panicTexts lists what identifies panic value v wherever it is shown (a log line, the development page): any
+// one of the alternatives.  How the value is formatted (%s, %v) and the wording around it are nobody's promise;
+// for the failed dependency resolution (0) it is the name of the type that could not be resolved.
+func panicTexts(v int) []string {
+	switch v {
+	case 0:
+		return []string{"unresolvable"}
+	case 3:
+		return []string{"nil map"}
+	case 4:
+		return []string{"{4}", "int=4"}
+	case 7:
+		return []string{"<nil>"} // what fmt prints for a nil receiver whose method panics
 	}
-	if v == 3 {
-		return "assignment to entry in nil map"
+	return []string{fmt.Sprintf("%s", panicValue(v))}
+}
+
+// whichPanic tells which scripted panic value a text shows (-1: none).
+func whichPanic(txt string) int {
+	for _, v := range []int{0, 10, 11, 1, 2, 3, 4, 5, 6, 8, 9, 7} {
+		for _, alt := range panicTexts(v) {
+			if strings.Contains(txt, alt) {
+				return v
+			}
+		}
 	}
-	if v == 7 {
-		return "<nil>" // what fmt prints for a nil receiver whose method panics
-	}
-	return fmt.Sprintf("%s", panicValue(v))
+	return -1
 }
 
 // scriptCtx is a request context that a scripted handler ends, either as cancelled or as past its deadline.
@@ -185,10 +210,19 @@ func scriptedHandler(cr **chainRun, i int, h *Sx) flamego.Handler {
 				c.Next()
 				r.log(T("nr", I(i)))
 			case "cancel":
-				r.cancel()
+				if len(a.Args()) == 1 {
+					// the request is replaced by one carrying a derived context, and that one ends
+					ctx, cancel := gocontext.WithCancel(c.Request().Context())
+					c.Request().Request = c.Request().WithContext(ctx)
+					cancel()
+				} else {
+					r.cancel()
+				}
 			case "maprh":
 				k := a.Args()[0].Int()
 				c.Map(customRH(k))
+			case "wrap":
+				c.MapTo(markWriter{c.ResponseWriter()}, (*http.ResponseWriter)(nil))
 			case "sub":
 				// a sub-request through the same application: a separate request whose events are not ours
 				saved := *cr
@@ -376,12 +410,8 @@ func runChain(in *Sx) *Sx {
 			defer func() {
 				if p := recover(); p != nil {
 					escaped = A("other")
-					txt := fmt.Sprintf("%s", p)
-					for v := 0; v < 12; v++ {
-						if strings.Contains(txt, panicText(v)) {
-							escaped = I(v)
-							break
-						}
+					if v := whichPanic(fmt.Sprintf("%s", p)); v >= 0 {
+						escaped = I(v)
 					}
 				}
 			}()
@@ -390,21 +420,13 @@ func runChain(in *Sx) *Sx {
 		cancel()
 		var body []*Sx
 		for _, ch := range w.chunks {
-			switch {
-			case strings.HasPrefix(ch, "<html>\n<head><title>PANIC: "):
-				v := -1
-				title := ch[len("<html>\n<head><title>PANIC: "):]
-				if e := strings.Index(title, "</title>"); e >= 0 {
-					title = title[:e]
-				}
-				for k := 0; k < 12; k++ {
-					if strings.Contains(title, panicText(k)) {
-						v = k
-						break
-					}
-				}
+			// what Recovery sends is told from scripted writes by its size (scripted bodies are a few bytes); whether
+			// it shows the panic detail is decided by the panic value's text being in it - the page's layout, title
+			// and wording are not the property's business
+			switch v := whichPanic(ch); {
+			case len(ch) >= 12 && v >= 0:
 				body = append(body, T("page", I(v), B(true)))
-			case ch == "Internal Server Error" && w.status != 0 && w.hdr.Get("Content-Type") == "text/plain":
+			case len(ch) >= 12 && w.status != 0:
 				body = append(body, T("page", I(-1), B(false)))
 			default:
 				body = append(body, T("b", X(ch)))
@@ -420,6 +442,7 @@ func runChain(in *Sx) *Sx {
 var chainCodes = []int{200, 201, 204, 301, 404, 418, 500}
 
 var genExtras = false // C03/C14: also sub-requests and request-scoped ReturnHandlers
+var genWrap = false   // C14/C15: also handlers that re-map http.ResponseWriter to a marking wrapper
 
 func genActs(rng *rand.Rand, maxNext int, allowPanic, allowCancel bool) []*Sx {
 	var acts []*Sx
@@ -437,7 +460,11 @@ func genActs(rng *rand.Rand, maxNext int, allowPanic, allowCancel bool) []*Sx {
 			}
 		case r < 84:
 			if allowCancel {
-				acts = append(acts, T("cancel"))
+				if rng.Intn(3) == 0 {
+					acts = append(acts, T("cancel", I(1))) // through a derived context that replaces the request's
+				} else {
+					acts = append(acts, T("cancel"))
+				}
 			}
 		case r < 92:
 			if allowPanic {
@@ -504,7 +531,12 @@ func genRet(rng *rand.Rand, rich bool) []*Sx {
 }
 
 func genHandler(rng *rand.Rand, maxNext int, allowPanic, allowCancel, richRet bool) *Sx {
-	return T("h", T("acts", genActs(rng, maxNext, allowPanic, allowCancel)...), T("ret", genRet(rng, richRet)...), T("fast", B(rng.Intn(2) == 0)), T("named", B(rng.Intn(4) == 0)))
+	acts := genActs(rng, maxNext, allowPanic, allowCancel)
+	if genWrap && rng.Intn(6) == 0 {
+		at := rng.Intn(len(acts) + 1)
+		acts = append(acts[:at:at], append([]*Sx{T("wrap")}, acts[at:]...)...)
+	}
+	return T("h", T("acts", acts...), T("ret", genRet(rng, richRet)...), T("fast", B(rng.Intn(2) == 0)), T("named", B(rng.Intn(4) == 0)))
 }
 
 func chainInput(rng *rand.Rand, mw, route []*Sx, groups [][]*Sx, action *Sx, reps int) *Sx {
@@ -555,15 +587,19 @@ func genC03(rng *rand.Rand, n int, tier string, emit func(*Sx)) {
 }
 
 func genC14(rng *rand.Rand, n int, tier string, emit func(*Sx)) {
-	genExtras = true
-	defer func() { genExtras = false }()
+	genExtras, genWrap = true, true
+	defer func() { genExtras, genWrap = false, false }()
 	for i := 0; i < n; i++ {
 		mk := func(k int, rich bool) []*Sx {
 			var hs []*Sx
 			for ; k > 0; k-- {
 				h := genHandler(rng, 1, false, false, rich)
 				if rng.Intn(2) == 0 { // a pure "return something" handler
-					h = T("h", T("acts"), T("ret", h.Field("ret").Args()...), T("fast", I(rng.Intn(3))))
+					var acts []*Sx
+					if rng.Intn(5) == 0 {
+						acts = []*Sx{T("wrap")}
+					}
+					h = T("h", T("acts", acts...), T("ret", h.Field("ret").Args()...), T("fast", I(rng.Intn(3))))
 				}
 				hs = append(hs, h)
 			}
@@ -580,6 +616,8 @@ func genC14(rng *rand.Rand, n int, tier string, emit func(*Sx)) {
 }
 
 func genC15(rng *rand.Rand, n int, tier string, emit func(*Sx)) {
+	genWrap = true
+	defer func() { genWrap = false }()
 	for i := 0; i < n; i++ {
 		// handlers before Recovery: never panic, call Next at most once (hypothesis H1 of C15_contained)
 		var mw []*Sx
